@@ -805,10 +805,22 @@ func TypeConforms(ctx map[ast.Variable]ast.BaseTerm, left ast.BaseTerm, right as
 	}
 	if leftConst, ok := left.(ast.Constant); ok {
 		if rightConst, ok := right.(ast.Constant); ok {
-			if strings.HasPrefix(leftConst.Symbol, rightConst.Symbol) {
+			// Both sides are type constants. The base types (/number, /string, ...)
+			// are name constants as well, but they are not name prefix types:
+			// the only rules for them are the ones above (equality, /any, /bot).
+			if leftConst.Type != ast.NameType || isBaseTypeConstant(leftConst) {
+				return false
+			}
+			// left is a name prefix type /a/b: all its members are names ...
+			if rightConst.Equals(ast.NameBound) {
 				return true
 			}
-			return leftConst.Type == ast.NameType && rightConst.Equals(ast.NameBound)
+			if rightConst.Type != ast.NameType || isBaseTypeConstant(rightConst) {
+				return false
+			}
+			// ... and they are members of the name prefix type right
+			// if right is a proper prefix of left that ends at a separator.
+			return strings.HasPrefix(leftConst.Symbol, rightConst.Symbol+"/")
 		}
 	}
 	// fn:Singleton(c) <: T if c is a member of T.
@@ -947,6 +959,17 @@ func TypeConforms(ctx map[ast.Variable]ast.BaseTerm, left ast.BaseTerm, right as
 		}
 	}
 
+	return false
+}
+
+// isBaseTypeConstant returns true if c is one of the type constants with a
+// built-in meaning (hasBaseType), as opposed to a name prefix type like /foo.
+func isBaseTypeConstant(c ast.Constant) bool {
+	switch c {
+	case ast.AnyBound, ast.BotBound, ast.Float64Bound, ast.NameBound, ast.NumberBound,
+		ast.StringBound, ast.BytesBound, ast.TimeBound, ast.DurationBound:
+		return true
+	}
 	return false
 }
 
